@@ -212,7 +212,18 @@ where
             #[cfg(feature = "tracing")]
             debug!(coalesce = %name, "Request executing as leader");
 
-            let future = self.inner.call(request);
+            // The key is registered from here on. If the inner service panics inside `call`
+            // no future - and so no `Drop` - will ever deregister it: do that now, or every
+            // later request for this key would wait for a leader that does not exist.
+            let future = match std::panic::catch_unwind(std::panic::AssertUnwindSafe(|| {
+                self.inner.call(request)
+            })) {
+                Ok(future) => future,
+                Err(panic) => {
+                    self.in_flight.cancel(&key);
+                    std::panic::resume_unwind(panic);
+                }
+            };
             let in_flight = Arc::clone(&self.in_flight);
 
             CoalesceFuture::Leading {
